@@ -826,3 +826,199 @@ Proof.
   rewrite map_flat_map. apply flat_map_ext. intros [a tops]. simpl. f_equal.
   rewrite map_flat_map. apply flat_map_ext. intro Z. reflexivity.
 Qed.
+
+(* ------------------------------------------------------------------ documented exception per rule: TM classes *)
+Inductive tm_broken (m : rtm) : nat -> Prop :=
+| tb_input s : In s (t_insyms m) -> ~ In s (t_tapesyms m) -> tm_broken m 4                 (* MissingSymbolError *)
+| tb_input_all : incl (t_tapesyms m) (t_insyms m) -> tm_broken m 4
+| tb_blank : ~ In (t_blank m) (t_tapesyms m) -> tm_broken m 2
+| tb_row q row : In (q, row) (t_trans m) -> ~ In q (t_states m) -> tm_broken m 1
+| tb_key q row key rs s : In (q, row) (t_trans m) -> In (key, rs) row -> In s key -> ~ In s (t_tapesyms m) -> tm_broken m 2
+| tb_res_state q row key rs q' mvs w d : In (q, row) (t_trans m) -> In (key, rs) row -> In (q', mvs) rs -> In (w, d) mvs ->
+    ~ In q' (t_states m) -> tm_broken m 1
+| tb_res_sym q row key rs q' mvs w d : In (q, row) (t_trans m) -> In (key, rs) row -> In (q', mvs) rs -> In (w, d) mvs ->
+    ~ In w (t_tapesyms m) -> tm_broken m 2
+| tb_res_dir q row key rs q' mvs w d : In (q, row) (t_trans m) -> In (key, rs) row -> In (q', mvs) rs -> In (w, d) mvs ->
+    2 < d -> tm_broken m 30                                                                  (* InvalidDirectionError *)
+| tb_init : ~ In (t_init m) (t_states m) -> tm_broken m 1
+| tb_init_row : ~ In (t_init m) (map fst (t_trans m)) -> 1 < length (t_states m) -> tm_broken m 3
+| tb_init_final : In (t_init m) (t_finals m) -> tm_broken m 5                                (* InitialStateError *)
+| tb_final q : In q (t_finals m) -> ~ In q (t_states m) -> tm_broken m 1
+| tb_final_row f : In f (t_finals m) -> In f (map fst (t_trans m)) -> tm_broken m 6.        (* FinalStateError *)
+
+Lemma tm_bad_broken m k : In (k, false) (tm_checks m) -> tm_broken m k.
+Proof.
+  intro Hc. apply tm_checks_In in Hc. destruct Hc as [Hc|[Hc|[[[q row] [Hrow Hc]]|Hc]]].
+  - inversion Hc as [[Ek E]]. symmetry in E. apply andb_false_iff in E. destruct E as [E|E].
+    + apply subsetb_false in E. destruct E as [s [Hs Hn]]. exact (tb_input m s Hs Hn).
+    + apply negb_false_iff in E. apply subsetb_incl in E. exact (tb_input_all m E).
+  - inversion Hc as [[Ek E]]. symmetry in E. apply tb_blank. apply memb_false. exact E.
+  - simpl in Hc. apply tm_row_In in Hc.
+    destruct Hc as [Hc|[[[key rs] [s [Hk [Hs Hc]]]]|[[key rs] [[q' mvs] [[w d] [Hk [Hr [Hmv Hc]]]]]]]].
+    + inversion Hc as [[Ek E]]. symmetry in E. apply (tb_row m q row Hrow). apply memb_false. exact E.
+    + inversion Hc as [[Ek E]]. symmetry in E. simpl in Hs. apply (tb_key m q row key rs s Hrow Hk Hs). apply memb_false. exact E.
+    + simpl in Hr, Hmv. destruct Hc as [Hc|[Hc|Hc]]; inversion Hc as [[Ek E]]; symmetry in E; simpl in E.
+      * apply (tb_res_state m q row key rs q' mvs w d Hrow Hk Hr Hmv). apply memb_false. exact E.
+      * apply (tb_res_sym m q row key rs q' mvs w d Hrow Hk Hr Hmv). apply memb_false. exact E.
+      * apply (tb_res_dir m q row key rs q' mvs w d Hrow Hk Hr Hmv). apply Nat.leb_gt. exact E.
+  - simpl in Hc. destruct Hc as [Hc|[Hc|[Hc|[Hc|[Hc|[]]]]]]; inversion Hc as [[Ek E]].
+    + apply tb_init. apply memb_false. exact E.
+    + apply orb_false_iff in E. destruct E as [E1 E2]. apply tb_init_row; [apply memb_false; exact E1|apply leb_1_false; exact E2].
+    + apply negb_false_iff in E. apply tb_init_final. apply memb_In. exact E.
+    + apply subsetb_false in E. destruct E as [f [Hf Hn]]. exact (tb_final m f Hf Hn).
+    + apply forallb_false in E. destruct E as [f [Hf E]]. apply negb_false_iff in E.
+      apply (tb_final_row m f Hf). apply memb_In. exact E.
+Qed.
+
+Lemma wf_tm_sound m k : wf_tm m -> ~ tm_broken m k.
+Proof.
+  intros [[H1 [s0 [Hs0 Hns0]]] H2 H3 H4 H5 H6 H7 H8 H9 H10] Hb. inversion Hb; subst.
+  - match goal with H : ~ In _ (t_tapesyms m) |- _ => apply H end. apply H1. assumption.
+  - apply Hns0. match goal with H : incl (t_tapesyms m) _ |- _ => apply H end. exact Hs0.
+  - match goal with H : ~ In _ (t_tapesyms m) |- _ => apply H end. exact H2.
+  - match goal with H : ~ In _ (t_states m) |- _ => apply H end. eapply H3; eassumption.
+  - match goal with H : ~ In _ (t_tapesyms m) |- _ => apply H end. eapply H4; eassumption.
+  - match goal with H : ~ In _ (t_states m) |- _ => apply H end. eapply H5; eassumption.
+  - match goal with H : ~ In _ (t_tapesyms m) |- _ => apply H end. eapply H5; eassumption.
+  - match goal with Ha : In (?q, ?row) (t_trans m), Hb : In (?key, ?rs) ?row, Hc : In (?q', ?mvs) ?rs, Hd : In (?w, ?d) ?mvs |- _ =>
+      destruct (H5 q row key rs q' mvs w d Ha Hb Hc Hd) as [_ [_ G]] end. lia.
+  - match goal with H : ~ In _ (t_states m) |- _ => apply H end. exact H6.
+  - destruct H7 as [H7|H7]; [contradiction|lia].
+  - apply H8. assumption.
+  - match goal with H : ~ In _ (t_states m) |- _ => apply H end. apply H9. assumption.
+  - eapply H10; eassumption.
+Qed.
+
+Theorem tm_validate_err_sound m e : tm_validate m = Err e -> exists k, e = Invalid k /\ tm_broken m k.
+Proof. exact (g_err_sound rtm tm_checks tm_broken tm_bad_broken m e). Qed.
+
+Theorem tm_broken_rejected m k : tm_broken m k -> exists k', tm_validate m = Err (Invalid k') /\ tm_broken m k'.
+Proof. exact (g_broken_rejected rtm tm_checks wf_tm tm_broken tm_checks_ok_iff tm_bad_broken wf_tm_sound m k). Qed.
+
+Theorem tm_single_rule_kind m k : tm_broken m k -> (forall k', tm_broken m k' -> k' = k) ->
+  tm_validate m = Err (Invalid k).
+Proof. exact (g_single_rule rtm tm_checks wf_tm tm_broken tm_checks_ok_iff tm_bad_broken wf_tm_sound m k). Qed.
+
+(* multitape: the single-tape rules, or a key / a result with the wrong number of components *)
+Inductive mntm_broken (n : nat) (m : rtm) : nat -> Prop :=
+| mb_tm k : tm_broken m k -> mntm_broken n m k
+| mb_key q row key rs : In (q, row) (t_trans m) -> In (key, rs) row -> length key <> n -> mntm_broken n m 31
+| mb_res q row key rs r : In (q, row) (t_trans m) -> In (key, rs) row -> In r rs -> length (snd r) <> n -> mntm_broken n m 31.
+
+Theorem mntm_validate_err_sound n m e : mntm_validate n m = Err e -> exists k, e = Invalid k /\ mntm_broken n m k.
+Proof.
+  intro H. destruct (mntm_validate_order n m) as [O1 O2].
+  destruct (tm_validate m) as [[]|e'] eqn:Et.
+  - rewrite (O2 eq_refl) in H. destruct (tapes_consistent n m) eqn:Ec; [discriminate|]. inversion H; subst.
+    exists 31. split; [reflexivity|]. unfold tapes_consistent in Ec.
+    apply forallb_false in Ec. destruct Ec as [[q row] [Hrow Ec]]. simpl in Ec.
+    apply forallb_false in Ec. destruct Ec as [[key rs] [Hk Ec]]. simpl in Ec.
+    apply andb_false_iff in Ec. destruct Ec as [Ec|Ec].
+    + apply Nat.eqb_neq in Ec. exact (mb_key n m q row key rs Hrow Hk Ec).
+    + apply forallb_false in Ec. destruct Ec as [r [Hr Ec]]. apply Nat.eqb_neq in Ec.
+      exact (mb_res n m q row key rs r Hrow Hk Hr Ec).
+  - rewrite (O1 e' eq_refl) in H. inversion H; subst. destruct (tm_validate_err_sound m e Et) as [k [E Hb]].
+    exists k. split; [exact E|apply mb_tm; exact Hb].
+Qed.
+
+Theorem mntm_broken_rejected n m k : mntm_broken n m k -> exists k', mntm_validate n m = Err (Invalid k').
+Proof.
+  intro Hb. destruct (mntm_validate n m) as [[]|e] eqn:E.
+  - exfalso. apply mntm_validate_iff_wf in E. destruct E as [Hw Hc]. inversion Hb; subst.
+    + eapply wf_tm_sound; eassumption.
+    + destruct (Hc q row key rs) as [G _]; try assumption. contradiction.
+    + destruct (Hc q row key rs) as [_ G]; try assumption. specialize (G r). tauto.
+  - destruct (mntm_validate_err_sound n m e E) as [k' [-> _]]. exists k'. reflexivity.
+Qed.
+
+(* ------------------------------------------------------------------ documented exception per rule: PDA classes *)
+Inductive npda_broken (m : pda) (mode : nat) : nat -> Prop :=
+| pb_in q row a tops : In (q, row) (p_trans m) -> In (Some a, tops) row -> ~ In a (p_syms m) -> npda_broken m mode 2
+| pb_stack q row a tops Z : In (q, row) (p_trans m) -> In (a, tops) row -> In Z (map fst tops) ->
+    ~ In Z (p_stack_syms m) -> npda_broken m mode 2
+| pb_init : ~ In (p_init m) (p_states m) -> npda_broken m mode 1
+| pb_init_stack : ~ In (p_init_stack m) (p_stack_syms m) -> npda_broken m mode 2
+| pb_final q : In q (p_finals m) -> ~ In q (p_states m) -> npda_broken m mode 1
+| pb_mode : 2 < mode -> npda_broken m mode 21.                                             (* InvalidAcceptanceModeError *)
+
+Inductive dpda_broken (m : pda) (mode : nat) : nat -> Prop :=
+| dpb_common k : npda_broken m mode k -> dpda_broken m mode k
+| dpb_clash q (row : prow) a (tops eps : ptops) Z : In (q, row) (p_trans m) -> oassoc None row = Some eps ->
+    In (Some a, tops) row -> In Z (map fst tops) -> In Z (map fst eps) -> dpda_broken m mode 20.   (* NondeterminismError *)
+
+Lemma tail_bad_broken m mode k : In (k, false) (pda_tail_checks m mode) -> npda_broken m mode k.
+Proof.
+  intro Hc. apply pda_tail_In in Hc. destruct Hc as [Hc|[Hc|[Hc|Hc]]]; inversion Hc as [[Ek E]]; symmetry in E.
+  - apply pb_init. apply memb_false. exact E.
+  - apply pb_init_stack. apply memb_false. exact E.
+  - apply subsetb_false in E. destruct E as [q [Hq Hn]]. exact (pb_final m mode q Hq Hn).
+  - apply pb_mode. apply Nat.leb_gt. exact E.
+Qed.
+
+Lemma npda_bad_broken m mode k : In (k, false) (npda_checks m mode) -> npda_broken m mode k.
+Proof.
+  unfold npda_checks. intro Hc. apply in_app_iff in Hc. destruct Hc as [Hc|Hc]; [|apply tail_bad_broken; exact Hc].
+  apply in_flat_map in Hc. destruct Hc as [[q row] [Hrow Hc]]. simpl in Hc. apply npda_row_In in Hc.
+  destruct Hc as [[a tops] [Hat [Hc|[Z [HZ Hc]]]]]; inversion Hc as [[Ek E]]; symmetry in E.
+  - destruct a as [a|]; simpl in E; [|discriminate]. apply (pb_in m mode q row a tops Hrow Hat). apply memb_false. exact E.
+  - simpl in HZ. apply (pb_stack m mode q row a tops Z Hrow Hat HZ). apply memb_false. exact E.
+Qed.
+
+Lemma dpda_bad_broken m mode k : In (k, false) (dpda_checks m mode) -> dpda_broken m mode k.
+Proof.
+  unfold dpda_checks. intro Hc. apply in_app_iff in Hc.
+  destruct Hc as [Hc|Hc]; [|apply dpb_common; apply tail_bad_broken; exact Hc].
+  apply in_flat_map in Hc. destruct Hc as [[q row] [Hrow Hc]]. simpl in Hc. apply dpda_row_In in Hc.
+  destruct Hc as [[a tops] [Hat [Hc|[Z [HZ [Hc|Hc]]]]]]; inversion Hc as [[Ek E]]; symmetry in E.
+  - apply dpb_common. destruct a as [a|]; simpl in E; [|discriminate].
+    apply (pb_in m mode q row a tops Hrow Hat). apply memb_false. exact E.
+  - simpl in E. unfold det_isolated_ok in E. destruct a as [a|]; [discriminate|].
+    destruct (oassoc None row) as [eps|] eqn:He; [|discriminate].
+    apply forallb_false in E. destruct E as [[[b|] tops'] [Hb E]]; simpl in E; [|discriminate].
+    unfold det_sibling_ok in E. apply forallb_false in E. destruct E as [Z' [HZ' E]].
+    apply negb_false_iff in E. apply memb_In in E.
+    exact (dpb_clash m mode q row b tops' eps Z' Hrow He Hb HZ' E).
+  - apply dpb_common. simpl in HZ. apply (pb_stack m mode q row a tops Z Hrow Hat HZ). apply memb_false. exact E.
+Qed.
+
+Lemma wf_npda_sound m mode k : wf_npda m mode -> ~ npda_broken m mode k.
+Proof.
+  intros [H1 H2 H3 H4 H5 H6] Hb. inversion Hb; subst.
+  - match goal with H : ~ In _ (p_syms m) |- _ => apply H end. eapply H1; eassumption.
+  - match goal with H : ~ In _ (p_stack_syms m) |- _ => apply H end. eapply H2; eassumption.
+  - match goal with H : ~ In _ (p_states m) |- _ => apply H end. exact H3.
+  - match goal with H : ~ In _ (p_stack_syms m) |- _ => apply H end. exact H4.
+  - match goal with H : ~ In _ (p_states m) |- _ => apply H end. apply H5. assumption.
+  - lia.
+Qed.
+
+Lemma wf_dpda_sound m mode k : wf_dpda m mode -> ~ dpda_broken m mode k.
+Proof.
+  intros [Hw Hd] Hb. inversion Hb; subst.
+  - eapply wf_npda_sound; eassumption.
+  - eapply Hd; eassumption.
+Qed.
+
+Theorem pda_validate_err_sound m mode e :
+  (npda_validate m mode = Err e -> exists k, e = Invalid k /\ npda_broken m mode k) /\
+  (dpda_validate_raw m mode = Err e -> exists k, e = Invalid k /\ dpda_broken m mode k).
+Proof.
+  split; intro H; apply first_bad_err in H; destruct H as [k [E Hin]]; exists k; (split; [exact E|]).
+  - apply npda_bad_broken. exact Hin.
+  - apply dpda_bad_broken. exact Hin.
+Qed.
+
+Theorem pda_single_rule_kind m mode k :
+  (npda_broken m mode k -> (forall k', npda_broken m mode k' -> k' = k) -> npda_validate m mode = Err (Invalid k)) /\
+  (dpda_broken m mode k -> (forall k', dpda_broken m mode k' -> k' = k) -> dpda_validate_raw m mode = Err (Invalid k)).
+Proof.
+  split.
+  - exact (g_single_rule (pda * nat) (fun x => npda_checks (fst x) (snd x)) (fun x => wf_npda (fst x) (snd x))
+             (fun x => npda_broken (fst x) (snd x))
+             (fun x => npda_checks_ok_iff (fst x) (snd x)) (fun x => npda_bad_broken (fst x) (snd x))
+             (fun x => wf_npda_sound (fst x) (snd x)) (m, mode) k).
+  - exact (g_single_rule (pda * nat) (fun x => dpda_checks (fst x) (snd x)) (fun x => wf_dpda (fst x) (snd x))
+             (fun x => dpda_broken (fst x) (snd x))
+             (fun x => dpda_checks_ok_iff (fst x) (snd x)) (fun x => dpda_bad_broken (fst x) (snd x))
+             (fun x => wf_dpda_sound (fst x) (snd x)) (m, mode) k).
+Qed.
